@@ -24,22 +24,26 @@ PROPS = {
         'not_decided': ['the shadow-epoch history argument of the property (every step of it is proved, the induction is lemma L1)', 'breakCycle (Forced)'],
     },
     'C03': {
-        'units': ['sqlite', 'engine_build', 'depids'],
+        'units': ['sqlite', 'sqlite_open', 'engine_build', 'depids'],
         'design_ref': 'DESIGN.md section 4, C03',
         'claim': 'lookupRuleResult reads every field of a stored result from the column the SELECT text names for it (both the fast and the join path; '
                  'the column order is parsed from the SQL literals on every run), decodes the dependency blob word by word into (key of id, order-only, '
                  'single-use) in order, caches the id mapping both ways and holds dbMutex throughout; getKeyIDForID maps a stored key text with its stored '
-                 'byte length (NUL-safe); build() runs nothing when BEGIN EXCLUSIVE fails',
+                 'byte length (NUL-safe); build() runs nothing when BEGIN EXCLUSIVE fails; open(): a database is interpreted only when the stored schema AND client '
+                 'version both match, otherwise it is rejected (no recreation allowed: nothing deleted) or deleted and recreated completely; every '
+                 'statement is prepared from its own SQL text on the open connection; no SQLite call on a closed or null connection',
         'not_decided': ['SQLite itself (statement semantics, type affinity of the key column -- candidate finding F11, BEGIN EXCLUSIVE, atomic commit)',
-                        'setRuleResult (encode side) and open() (schema/version gate) are not under contract at this commit',
+                        'setRuleResult (encode side) is not under contract at this commit',
                         'getKeyIDForID is used inside lookupRuleResult through an assumed functional view (its cache/db consistency is not proved)'],
     },
     'C04': {
-        'units': ['engine_build'],
+        'units': ['engine_build', 'sqlite_open'],
         'design_ref': 'DESIGN.md section 4, C04',
         'claim': 'every commit point of a build is consistent: buildStarted precedes and buildComplete follows all database work of a build, the epoch '
                  'is advanced before any task runs, and before the transaction commits the new epoch has been handed to the database in the same '
-                 'transaction (so the stored epoch is never smaller than a stored result\'s epochs); nothing is left open',
+                 'transaction (so the stored epoch is never smaller than a stored result\'s epochs); nothing is left open; open() creates the schema '
+                 'inside one BEGIN EXCLUSIVE .. END transaction, closes the connection when that fails, deletes a database only on a version mismatch '
+                 'with recreation allowed, and never issues a PRAGMA that switches journaling or synchronous writes off',
         'not_decided': ['the enumeration of kill points, journal recovery and fsync (SQLite atomic commit is assumed)',
                         'setRuleResult / key table contents (U-db units)', 'that continued builds return clean results (lemma L1)'],
     },
